@@ -995,7 +995,11 @@ fn derive_dot_expression(
                                     }
                                 }
                             }
-                            Shape::Hole(_) => {
+                            // A hole, an unresolved import or the result of
+                            // instantiating an unknown module can have any field.
+                            Shape::Hole(_)
+                            | Shape::Module(_)
+                            | Shape::Import(ImportShape::Unresolved(_)) => {
                                 results.push(Shape::Narrowed(NarrowedShape {
                                     pos: pi.pos.clone(),
                                     types: NarrowingShape::Any,
